@@ -214,6 +214,19 @@ def small_check(case):
             b = bad[0]
             seen.setdefault("dtype-dependence", "waveform %r handed over as %s: features %r differ from the float64 features %r"
                             % (batch[b].T.tolist(), np.dtype(dt).name, dict(zip(cols, a2[b])), dict(zip(cols, arr[b]))))
+    # the caller's floating-point error state is the caller's business: with every numpy floating-point error turned into an exception (np.errstate(all="raise"),
+    # as debugging sessions and strict pipelines run) extraction still succeeds and gives the same features (troughs on the last sample make 0 / 0 slopes)
+    try:
+        with np.errstate(all="raise"):
+            _, a2 = _rows(features(batch, d))
+        ncalls += 1
+        if not np.array_equal(a2, arr, equal_nan=True):
+            b = int(np.flatnonzero(~np.all((a2 == arr) | (np.isnan(a2) & np.isnan(arr)), axis=1))[0])
+            seen.setdefault("errstate-dependence", "waveform %r: features under np.errstate(all='raise') %r differ from those under the default error state %r"
+                            % (batch[b].T.tolist(), dict(zip(cols, a2[b])), dict(zip(cols, arr[b]))))
+    except Exception as e:
+        seen.setdefault("errstate:exc:%s" % type(e).__name__, "compute_spike_features raised %s: %s on a batch of %d admissible waveforms (T=%d) when the caller runs with np.errstate(all='raise'); "
+                        "under the default error state it succeeds" % (type(e).__name__, e, batch.shape[0], T))
     # scaling by c > 0: values scale, indices stay (whole batch at once)
     for cscale in (0.5, 3.0):
         _, a2 = _rows(features(batch * cscale, d))
